@@ -1,5 +1,5 @@
 """C14 - inverse paths add incoming-link constraints and leave the rest untouched."""
-from checks import stage_check
+from checks import stage_check, step_check
 
 
 def _sizes(tier, k):
@@ -10,7 +10,9 @@ def _sizes(tier, k):
 
 def main(tier, t0):
     tasks = stage_check.tasks_for("C14", tier, scenario="inverse3", sizes=_sizes,
-                                  structure_filter=lambda st: st["inverse_ok"] and "ref-tie" not in st["tags"])
-    return stage_check.main("C14", tier, t0, tasks=tasks,
+                                  structure_filter=lambda st: st["inverse_ok"] and "ref-tie" not in st["tags"] and st["name"] != "sm-chain")
+    tasks += step_check.tasks("C14", tier)
+    sm = step_check.meta("C14")
+    return stage_check.main("C14", tier, t0, tasks=tasks, extra_meta=dict(functions_encoded=sm["functions_encoded"], bounds=sm["bounds"], assumptions=sm["assumptions"]),
                             explanation="three runs inside one symbolic path on the same rows: inverse_paths on G, off on G, off on reverse(G); shapes, instance counts and outgoing "
                                         "constraints (keys, cardinalities, value expressions, figures, comments) of run 1 equal run 2; '^' constraints of run 1 equal the non-literal constraints of run 3.")
